@@ -49,7 +49,7 @@ var (
 	ctxv  atomic.Value // *caseCtx of the case being forced
 	leaky int32        // set once a case was abandoned with a goroutine still running: hooks then check goroutine ids
 	// deadlines
-	stepDeadline  = 2 * time.Second
+	stepDeadline  = 12 * time.Second
 	probeDeadline = 3 * time.Millisecond
 	singleP       bool
 )
